@@ -459,6 +459,7 @@ func cmdVerify(args []string) {
 	}
 	fmt.Printf("total %.1fs, undischarged=%d\n", time.Since(t0).Seconds(), bad)
 	if bad > 0 {
+		os.RemoveAll(tmp) // deferred calls do not run on os.Exit
 		os.Exit(1)
 	}
 }
